@@ -339,6 +339,13 @@ class CallModelsMixin:
             if name in ("norm", "det", "cond", "matrix_rank"):
                 return Val(ty={"float"}, kind={"F"}, fsrc=fs, dep=d, mdep=m)
             return self.nd(node, {"F"}, d, m, fs)
+        if sub and name in ("reduce", "accumulate", "outer", "reduceat") and sub[-1] in ("lcm", "gcd", "add", "multiply", "subtract", "maximum", "minimum", "bitwise_or", "bitwise_and", "floor_divide", "remainder", "power"):
+            # np.<ufunc>.reduce(sequence): the sequence becomes a fixed-width array first
+            if "dtype" not in kw:
+                self._fixed_width_seq(pos[:1], node)
+            ks = scal_kind(a0) if a0 is not None else EMPTY
+            r_ = self.nd(node, ks, d, m, a0.all_fsrc() if a0 is not None else EMPTY)
+            return join(r_, r_.elem.elem.with_(dep=d, mdep=m)) if name == "reduce" else r_
         if sub and sub[0] == "random":
             if name in ("randint", "choice", "permutation"):
                 return self.nd(node, {"I"}, d, m)
